@@ -189,7 +189,7 @@ Proof.
 Qed.
 
 (* 5. BOUNDED: the WHOLE function (all keys, all twelve substitutions in order) on the finite family
-      Model/C04_Sweep.family_quick = 35 keys x {lower, UPPER, Capitalised, digit-suffixed} x 12 renderings x
+      Model/C04_Sweep.family_quick (6 248 messages) = 35 keys x {lower, UPPER, Capitalised, digit-suffixed} x 12 renderings x
       values / one key x every class representative of the generated sets at lengths 1 and 2 / 35 keys x
       contexts x masks: outside the zones of the known findings exactly the value is replaced, and a
       second application changes nothing.  Checked by computation (vm_compute), finite, NOT universal. *)
@@ -201,7 +201,7 @@ Theorem C04_idempotent_bounded : forall c, In c family_quick -> in_zone (case_ms
   mask_password (mask_password (case_msg c) (case_mask c)) (case_mask c) = mask_password (case_msg c) (case_mask c).
 Proof. exact idempotent_bounded. Qed.
 Print Assumptions C04_idempotent_bounded.
-Theorem C04_family_size : N.of_nat (length family_quick) = 8022 /\ (exists c, In c family_quick /\ in_zone (case_msg c) = false).
+Theorem C04_family_size : N.of_nat (length family_quick) = 6248 /\ (exists c, In c family_quick /\ in_zone (case_msg c) = false).
 Proof. exact family_nonvacuous. Qed.
 Print Assumptions C04_family_size.
 
@@ -216,3 +216,19 @@ Theorem C04_refuted_wildcard :
   k12_once <> k12_twice /\ zone_K12 k12_witness = true.
 Proof. exact refuted_wildcard. Qed.
 Print Assumptions C04_refuted_wildcard.
+
+(* 7. K14 (found by this property's oracle): one secret in neutral text is NOT always masked exactly — `--K value`
+      with an earlier key of the list a proper suffix of K and a flag-like value also masks the next word.  The zone
+      is narrow: the same value under the suffix key itself, or a value that is not entirely --?[A-z]+, is outside
+      it and is masked exactly. *)
+Definition C04_single_statement : Prop := single_statement.
+Theorem C04_refuted_K14 :
+  ~ C04_single_statement /\
+  mask_password k14_witness (lit "***") = lit " --auth_password *** ***" /\
+  zone_K14 k14_witness = true /\ zone_K12 k14_witness = false /\
+  mask_password (lit " --password -ab 1") (lit "***") = lit " --password *** 1" /\
+  zone_K14 (lit " --password -ab 1") = false /\
+  mask_password (lit " --auth_password -ab1 1") (lit "***") = lit " --auth_password *** 1" /\
+  zone_K14 (lit " --auth_password -ab1 1") = false.
+Proof. exact refuted_K14. Qed.
+Print Assumptions C04_refuted_K14.
